@@ -266,13 +266,13 @@ def shard_text(cases):
     """cases: list of (idx, row, ops, trace)"""
     items = []
     for idx, row, ops, trace in cases:
-        items.append("(%d%%nat, %s, %s)" % (idx, tr_classes.cls_literal(row), trace_lit(row, ops, trace)))
-    return ("Definition cases : list (nat * cls * list (eop * wobs)) := [\n" + ";\n".join(items) + "].\n"
+        items.append("(%d%%Z, %s, %s)" % (idx, tr_classes.cls_literal(row), trace_lit(row, ops, trace)))
+    return ("Definition cases : list (Z * cls * list (eop * wobs)) := [\n" + ";\n".join(items) + "].\n"
             "Definition mism := flat_map (fun c => let '(i, cl, t) := c in\n"
             "  if trace_same (wrun cl (fresh cl) (fresh cl) (map fst t)) t then [] else [i]) cases.\n"
             "Definition viol := flat_map (fun c => let '(i, cl, t) := c in\n"
-            "  if holds_on cl (fresh cl) (fresh cl) t then [] else [(1000000 + i)%nat]) cases.\n"
-            "Definition result : list nat := mism ++ viol.\n")
+            "  if holds_on cl (fresh cl) (fresh cl) t then [] else [(- (i + 1))%Z]) cases.\n"
+            "Definition result : list Z := mism ++ viol.\n")
 
 
 def jsonable(ops):
@@ -422,7 +422,10 @@ def run(rep, tier, seed, tr_errors):
             broken.append((si, raw[-800:]))
             continue
         for i in parsed:
-            (viol if i >= 1000000 else mism).append(i % 1000000)
+            if i < 0:
+                viol.append(-i - 1)
+            else:
+                mism.append(i)
     rep.oblige("correspondence:ElemState-vs-base.py", not mism and not broken,
                "%d cases, %d mismatches, %d shards failed to evaluate" % (len(done), len(mism), len(broken)))
     rep.oblige("property-on-observed-traces", not viol and not broken, "%d traces violate holds_on" % len(viol))
@@ -468,7 +471,7 @@ def violates(row, ops):
     trace = run_impl(row, [dict(o) for o in ops])
     outs = lib.run_shards(PROP + "_min", HEADER, [shard_text([(0, row, ops, trace)])])
     rc, parsed, raw = outs[0]
-    return (rc == 0 and parsed is not None and any(i >= 1000000 for i in parsed)), trace
+    return (rc == 0 and parsed is not None and any(i < 0 for i in parsed)), trace
 
 
 def minimise_violation(row, ops):
